@@ -364,6 +364,29 @@ func (e *Exec) evalGhostBuiltin(st *State, call *ast.CallExpr, name string) Term
 		return e.callRecv
 	case "__eq":
 		return Eq(e.eval(st, call.Args[0]), e.eval(st, call.Args[1]))
+	case "__ranged":
+		for i := len(e.vis) - 1; i >= 0; i-- {
+			if e.vis[i].iter != nil {
+				return e.vis[i].seq
+			}
+		}
+		e.unsupported(call.Pos(), "__ranged outside a range-over-slice loop")
+		return e.eval(st, call.Args[0])
+	case "__perm":
+		a, b := e.eval(st, call.Args[0]), e.eval(st, call.Args[1])
+		if a.Sort != b.Sort || !strings.HasPrefix(a.Sort, "Sl_") {
+			e.unsupported(call.Pos(), "__perm on %s / %s", a.Sort, b.Sort)
+			return True
+		}
+		return And(Eq(e.S.SlLen(a), e.S.SlLen(b)), e.permPred(e.S.SlArr(a), e.S.SlArr(b), e.S.SlLen(a)))
+	case "__visset":
+		for i := len(e.vis) - 1; i >= 0; i-- {
+			if e.vis[i].vis != nil {
+				return st.Vars[e.vis[i].vis]
+			}
+		}
+		e.unsupported(call.Pos(), "__visset outside a range-over-map loop")
+		return Int(0)
 	case "__iter":
 		for i := len(e.vis) - 1; i >= 0; i-- {
 			if e.vis[i].cnt != nil {
@@ -456,6 +479,8 @@ func (e *Exec) evalGhostBuiltin(st *State, call *ast.CallExpr, name string) Term
 		return e.countSet(st, call)
 	case "__countseq":
 		return e.countSeq(st, call)
+	case "__sumseq":
+		return e.sumSeq(st, call)
 	case "__enum":
 		return e.enumPred(st, call)
 	case "__dyn":
@@ -506,7 +531,7 @@ func (e *Exec) evalUnboxed(st *State, x ast.Expr) Term { return e.eval(st, x) }
 // evalSet evaluates a set-valued ghost expression (__dom(m), or a map used as a set of its keys).
 func (e *Exec) evalSet(st *State, x ast.Expr) Term {
 	if c, ok := x.(*ast.CallExpr); ok {
-		if id, ok := c.Fun.(*ast.Ident); ok && id.Name == "__dom" {
+		if id, ok := c.Fun.(*ast.Ident); ok && (id.Name == "__dom" || id.Name == "__visset") {
 			return e.eval(st, x)
 		}
 		if id, ok := c.Fun.(*ast.Ident); ok && id.Name == "__old" {
@@ -558,7 +583,7 @@ func (e *Exec) countFun(st *State, call *ast.CallExpr, lit *ast.FuncLit, seq boo
 		return "", nil, ""
 	}
 	ks := e.S.SortOf(param.Type())
-	bv := Term{"cntk", ks}
+	bv := Term{"cntk!q0", ks}
 	old, had := e.bound[param]
 	e.bound[param] = bv
 	p := e.eval(st, body)
@@ -577,7 +602,7 @@ func (e *Exec) countFun(st *State, call *ast.CallExpr, lit *ast.FuncLit, seq boo
 		fvs = append(fvs, e.Ctx.ConstSort(s))
 	}
 	for _, t := range e.boundInText(p.S) {
-		if t.S != "cntk" {
+		if t.S != "cntk!q0" {
 			fv = append(fv, t)
 			fvs = append(fvs, t.Sort)
 		}
@@ -614,13 +639,13 @@ func (e *Exec) countFun(st *State, call *ast.CallExpr, lit *ast.FuncLit, seq boo
 		e.Ctx.DeclareFun(name, append([]string{setSort}, fvs...), SInt)
 		e.Ctx.Axiom(fmt.Sprintf("(forall ((s %s) %s) (! (>= (%s s%s) 0) :pattern ((%s s%s))))", setSort, strings.Join(params, " "), name, argl, name, argl))
 		e.Ctx.Axiom(fmt.Sprintf("(forall (%s) (= (%s ((as const %s) false)%s) 0))", strings.Join(append(params, "(dummy Int)"), " "), name, setSort, argl))
-		e.Ctx.Axiom(fmt.Sprintf("(forall ((s %s) (cntk %s) %s) (! (=> (not (select s cntk)) (= (%s (store s cntk true)%s) (+ (%s s%s) (ite %s 1 0)))) :pattern ((%s (store s cntk true)%s))))",
+		e.Ctx.Axiom(fmt.Sprintf("(forall ((s %s) (cntk!q0 %s) %s) (! (=> (not (select s cntk!q0)) (= (%s (store s cntk!q0 true)%s) (+ (%s s%s) (ite %s 1 0)))) :pattern ((%s (store s cntk!q0 true)%s))))",
 			setSort, ks, strings.Join(params, " "), name, argl, name, argl, pred, name, argl))
 	} else {
 		// cnt(seqarr, n, fv...) = number of i in [0,n) with P(seqarr[i])
 		arrSort := ArraySort(SInt, ks)
 		e.Ctx.DeclareFun(name, append([]string{arrSort, SInt}, fvs...), SInt)
-		predAt := replaceSymbol(pred, "cntk", "(select s (- n 1))")
+		predAt := replaceSymbol(pred, "cntk!q0", "(select s (- n 1))")
 		e.Ctx.Axiom(fmt.Sprintf("(forall ((s %s) (n Int) %s) (! (=> (<= n 0) (= (%s s n%s) 0)) :pattern ((%s s n%s))))", arrSort, strings.Join(params, " "), name, argl, name, argl))
 		e.Ctx.Axiom(fmt.Sprintf("(forall ((s %s) (n Int) %s) (! (=> (> n 0) (= (%s s n%s) (+ (%s s (- n 1)%s) (ite %s 1 0)))) :pattern ((%s s n%s))))",
 			arrSort, strings.Join(params, " "), name, argl, name, argl, predAt, name, argl))
@@ -882,6 +907,9 @@ func (p *Program) wildcardKeys(c *Contract, text string, sc *clauseScope) ([]str
 			return []string{"*"}, true
 		}
 		return []string{ptrKeyName(t)}, true
+	case strings.HasPrefix(text, "anyghost "):
+		rest := strings.TrimSpace(strings.TrimPrefix(text, "anyghost "))
+		return []string{"G:" + rest}, true
 	case text == "everything":
 		return []string{"*"}, true
 	}
@@ -925,6 +953,8 @@ func (e *Exec) ensureKey(k string, c *Contract, text string, sc *clauseScope) {
 	case strings.HasPrefix(text, "anyptr "):
 		t := e.P.lookupType(strings.TrimSpace(strings.TrimPrefix(text, "anyptr ")), sc)
 		e.ptrKey(t)
+	case strings.HasPrefix(text, "anyghost "):
+		e.ensureKeySort(k)
 	}
 }
 
@@ -1110,4 +1140,92 @@ func (e *Exec) callContract(st *State, call *ast.CallExpr, fn *types.Func, c *Co
 	}
 	e.UsedContracts[c.Pkg+":"+c.Key] = true
 	return res
+}
+
+// permPred: perm(a, b, n) — the first n elements of a are a rearrangement of the first n elements of b.
+// It is produced by the sort externs and by element-wise copies; reflexivity on element-wise equal prefixes
+// and transitivity are its only axioms (trusted meaning: multiset equality).
+func (e *Exec) permPred(a, b, n Term) Term {
+	es := arrayElem(a.Sort)
+	name := "perm_" + mangle(es)
+	as := a.Sort
+	e.Ctx.DeclareFun(name, []string{as, as, SInt}, SBool)
+	e.Ctx.Axiom(fmt.Sprintf("(forall ((a %s) (b %s) (c %s) (n Int)) (! (=> (and (%s a b n) (%s b c n)) (%s a c n)) :pattern ((%s a b n) (%s b c n))))", as, as, as, name, name, name, name, name))
+	e.Ctx.Axiom(fmt.Sprintf("(forall ((a %s) (n Int)) (! (%s a a n) :pattern ((%s a a n))))", as, name, name))
+	e.Assumed["perm(a,b,n) (rearrangement of the first n elements) is characterised by reflexivity, transitivity and what sort/copy produce"] = true
+	return app(SBool, name, a, b, n)
+}
+
+// sumSeq: __sumseq(s, n, func(x T) int { return e }) = sum of e over the first n elements of s, defined by
+// sum(s,0) = 0 and sum(s,n) = sum(s,n-1) + e(s[n-1]).
+func (e *Exec) sumSeq(st *State, call *ast.CallExpr) Term {
+	lit, ok := call.Args[2].(*ast.FuncLit)
+	if !ok {
+		e.unsupported(call.Pos(), "__sumseq(s, n, func...)")
+		return Int(0)
+	}
+	s := e.eval(st, call.Args[0])
+	n := e.eval(st, call.Args[1])
+	if !strings.HasPrefix(s.Sort, "Sl_") {
+		e.unsupported(call.Pos(), "__sumseq on %s", s.Sort)
+		return Int(0)
+	}
+	param, body := e.lambdaBody(st, lit)
+	if param == nil {
+		e.unsupported(call.Pos(), "__sumseq needs func(x T) int { return e }")
+		return Int(0)
+	}
+	ks := e.S.SortOf(param.Type())
+	bv := Term{"cntk!q0", ks}
+	old, had := e.bound[param]
+	e.bound[param] = bv
+	v := e.eval(st, body)
+	if had {
+		e.bound[param] = old
+	} else {
+		delete(e.bound, param)
+	}
+	syms := e.Ctx.Symbols(v.S)
+	var fv []Term
+	var fvs []string
+	for _, sy := range syms {
+		fv = append(fv, Term{sy, e.Ctx.ConstSort(sy)})
+		fvs = append(fvs, e.Ctx.ConstSort(sy))
+	}
+	for _, t := range e.boundInText(v.S) {
+		if t.S != "cntk!q0" {
+			fv = append(fv, t)
+			fvs = append(fvs, t.Sort)
+		}
+	}
+	canon := v.S
+	for i, a := range fv {
+		canon = replaceSymbol(canon, a.S, fmt.Sprintf("$a%d", i))
+	}
+	key := fmt.Sprintf("sum|%s|%s|%s", ks, strings.Join(fvs, ","), canon)
+	name, ok := e.cntDefs[key]
+	if !ok {
+		name = fmt.Sprintf("sum_%d", len(e.cntDefs)+1)
+		e.cntDefs[key] = name
+		var params, pnames []string
+		for i, srt := range fvs {
+			params = append(params, fmt.Sprintf("(a%d %s)", i, srt))
+			pnames = append(pnames, fmt.Sprintf("a%d", i))
+		}
+		val := canon
+		for i := range fv {
+			val = replaceSymbol(val, fmt.Sprintf("$a%d", i), fmt.Sprintf("a%d", i))
+		}
+		argl := ""
+		if len(pnames) > 0 {
+			argl = " " + strings.Join(pnames, " ")
+		}
+		arrSort := ArraySort(SInt, ks)
+		e.Ctx.DeclareFun(name, append([]string{arrSort, SInt}, fvs...), SInt)
+		valAt := replaceSymbol(val, "cntk!q0", "(select s (- n 1))")
+		e.Ctx.Axiom(fmt.Sprintf("(forall ((s %s) (n Int) %s) (! (=> (<= n 0) (= (%s s n%s) 0)) :pattern ((%s s n%s))))", arrSort, strings.Join(params, " "), name, argl, name, argl))
+		e.Ctx.Axiom(fmt.Sprintf("(forall ((s %s) (n Int) %s) (! (=> (> n 0) (= (%s s n%s) (+ (%s s (- n 1)%s) %s))) :pattern ((%s s n%s))))",
+			arrSort, strings.Join(params, " "), name, argl, name, argl, valAt, name, argl))
+	}
+	return app(SInt, name, append([]Term{e.S.SlArr(s), n}, fv...)...)
 }
